@@ -476,3 +476,27 @@ Definition model_obs (c : case) : list N :=
   ++ [if valid_b (fst fin) then 1 else 0].
 
 Definition check_case (c : case) : bool := lN_eqb (model_obs c) (c_expect c).
+
+(* ---------- T1: the effect skeleton of a compiled program (compared with the order of the same effects in
+   the Rust source by the obligations of Gen/CrashEffects.v, regenerated by tools/gen/crash_effects.py) ---------- *)
+(* named points keep their code (< 100); file-system effects and the counter update get a code >= 101;
+   ghost instructions have no counterpart in the source *)
+Definition instr_code (i : instr) : list N :=
+  match i with
+  | IPt t => [t]
+  | ITruthWrite _ => [101] | ITruthFlush => [102]
+  | ISideOpen _ => [103] | ISideWrite _ _ => [104] | ISideFlush _ => [105]
+  | ISetNext _ _ => [106] | IIdxMem _ _ => [107] | IIdxTmp => [108] | IIdxRename => [109]
+  | IArtTmp _ => [110] | IArtRename _ => [111] | ISideCreate _ => [112] | ISideRemove _ => [113]
+  | IAck _ | IOk => []
+  end.
+Definition skel (is : list instr) : list N := flat_map instr_code is.
+(* source-only effects (no instruction in the model; their position is fixed by the generated spec lists):
+   120 broadcast, 121 seq-mutex lock, 122 next_seq.insert(loaded seq), 123 next_seq.get, 124 load_next_seq_for *)
+Definition modelled_code (n : N) : bool := n <? 120.
+
+Definition ver_eqb (a b : ver) : bool :=
+  Bool.eqb (fw a) (fw b) && Bool.eqb (fr a) (fr b) && Bool.eqb (ff a) (ff b).
+
+(* a state whose in-memory counter of thread 0 is warm (locked appends resolve without touching the disk) *)
+Definition st_warm : st := exec init (ISetNext 0 1).
